@@ -305,7 +305,54 @@ func RetOperands(ret *ssa.Return) []ssa.Value {
 		}
 		if last != nil {
 			out[i] = last
+			// the stored value may itself be a reload of a captured variable
+			// assigned just before in the same block (err = …; return nil, err)
+			for hop := 0; hop < 3; hop++ {
+				u2, ok := out[i].(*ssa.UnOp)
+				if !ok || u2.Op != token.MUL {
+					break
+				}
+				a2, ok := u2.X.(*ssa.Alloc)
+				if !ok {
+					break
+				}
+				var l2 ssa.Value
+				for _, in := range ret.Block().Instrs {
+					if in == ssa.Instruction(u2) {
+						break
+					}
+					if st, ok := in.(*ssa.Store); ok && st.Addr == a2 {
+						l2 = st.Val
+					}
+				}
+				if l2 == nil {
+					break
+				}
+				out[i] = l2
+			}
 		}
 	}
 	return out
+}
+
+// IsParam reports whether v is the parameter p or a load of the local slot the
+// parameter was spilled to (parameters captured by closures live in allocs).
+func IsParam(v ssa.Value, p *ssa.Parameter) bool {
+	if v == ssa.Value(p) {
+		return true
+	}
+	u, ok := v.(*ssa.UnOp)
+	if !ok || u.Op != token.MUL {
+		return false
+	}
+	al, ok := u.X.(*ssa.Alloc)
+	if !ok {
+		return false
+	}
+	for _, r := range *al.Referrers() {
+		if st, ok := r.(*ssa.Store); ok && st.Addr == al && st.Val == ssa.Value(p) {
+			return true
+		}
+	}
+	return false
 }
